@@ -99,6 +99,7 @@ Not decided: that a warning never alters *dependent* definitions' bindings in wa
     local(m, ctx, &consts);
     discard(m, ctx);
     misread_value(m, ctx, &consts);
+    ir_names(m, ctx, &consts);
 }
 
 fn empties(m: &Model, ctx: &mut Ctx, consts: &dyn Fn(&str) -> Option<Val>) {
@@ -804,6 +805,97 @@ fn misread_value(m: &Model, ctx: &mut Ctx, consts: &dyn Fn(&str) -> Option<Val>)
         ctx.violate(rule, "misread-value:silent", &f.file, arm.as_ref().map(|(mt, i)| span_line(&mt.arms[*i])).unwrap_or(f.line),
             "`abstractSyntax ID ::= {ds 9}` (ID ::= OBJECT IDENTIFIER) is read as an information object of class ID; the linker finds no class of that name, leaves the object as it is, and the generators emit nothing for objects: the value assignment disappears without a warning, and `id-as ID ::= abstractSyntax` then names a constant that does not exist");
     }
+}
+
+/// C10.name: "represented … under its own name" begins where the lexer's parse result becomes IR: every
+/// `impl From<..> for Toplevel*Definition` is evaluated on an input whose identifier components are distinct symbols; the
+/// `name` of the definition it builds must be the reference the assignment *defines* — the first identifier of the
+/// production (every X.680 assignment starts with the reference being assigned), for a MACRO definition its `name` field
+/// whatever the substance (body, reference to another macro, external reference). A definition stored under another
+/// identifier of the production collides with the definition of that name in the name-keyed table and vanishes.
+fn ir_names(m: &Model, ctx: &mut Ctx, consts: &dyn Fn(&str) -> Option<Val>) {
+    let rule = "C10.name";
+    let ev = Evaluator { consts, call_hook: &crate::eval::no_hook, inline: None };
+    let mut n = 0;
+    for f in m.fns.iter().filter(|f| f.name == "from" && f.self_ty.as_deref().is_some_and(|t| t.starts_with("Toplevel") && t.ends_with("Definition")) && f.module.starts_with("intermediate")) {
+        let Some(syn::FnArg::Typed(pt)) = f.sig.inputs.first() else { continue };
+        let pname = tok(&pt.pat).replace("mut ", "");
+        let target = f.self_ty.clone().unwrap_or_default();
+        ctx.func(&f.key);
+        // the inputs to try: (label, value, expected name)
+        let mut inputs: Vec<(String, Val, String)> = vec![];
+        match &*pt.ty {
+            syn::Type::Tuple(t) => {
+                let mut vals = vec![];
+                let mut first_ident = None;
+                for (i, el) in t.elems.iter().enumerate() {
+                    let ts = tok(el);
+                    let v = if ts == "&str" || ts == "&'astr" || ts.starts_with("&'") && ts.ends_with("str") {
+                        if first_ident.is_none() {
+                            first_ident = Some(format!("ident{}", i));
+                        }
+                        Val::Str(format!("ident{}", i))
+                    } else if ts.starts_with("Vec<") {
+                        Val::List(vec![])
+                    } else if ts.starts_with("Option<") {
+                        Val::none()
+                    } else {
+                        Val::Opaque(format!("component{}", i))
+                    };
+                    vals.push(v);
+                }
+                let Some(first) = first_ident else { continue };
+                inputs.push((tok(&pt.ty), Val::Tuple(vals), first));
+            }
+            _ => {
+                // a struct delivered by the lexer: its `name` field is the defined reference; every enum-typed field is tried with each variant
+                let tyname = tok(&pt.ty).split('<').next().unwrap_or("").to_string();
+                let Some(st) = m.structs.iter().find(|s| s.name == tyname) else {
+                    ctx.fail_closed(rule, &format!("{}: input type {} is not a struct of the crate", f.key, tyname));
+                    continue;
+                };
+                let mut variants: Vec<(String, Val)> = vec![("".into(), Val::Unit)];
+                let mut enum_field = None;
+                for (fname, fty, _) in &st.fields {
+                    let base = fty.split('<').next().unwrap_or("").to_string();
+                    if let Ok(en) = m.find_enum(&base) {
+                        enum_field = Some(fname.clone());
+                        variants = en.variants.iter().map(|v| {
+                            let fields = en.variant_fields.get(v).cloned().unwrap_or_default();
+                            let named: BTreeMap<String, Val> = fields.iter().filter(|(k, _)| !k.is_empty() && !k.chars().all(|c| c.is_ascii_digit())).map(|(k, _)| (k.clone(), Val::Str(format!("other-{}", k)))).collect();
+                            let pos: Vec<Val> = if named.is_empty() { fields.iter().map(|_| Val::Str("other".into())).collect() } else { vec![] };
+                            (v.clone(), Val::Ctor(v.clone(), pos, named))
+                        }).collect();
+                    }
+                }
+                for (vn, vv) in variants {
+                    let mut fl = BTreeMap::new();
+                    for (fname, _, _) in &st.fields {
+                        fl.insert(fname.clone(), if fname == "name" { Val::Str("DEFINED".into()) } else if Some(fname) == enum_field.as_ref() { vv.clone() } else { Val::Opaque(fname.clone()) });
+                    }
+                    inputs.push((format!("{}{}", tyname, if vn.is_empty() { String::new() } else { format!(" / {}", vn) }), Val::Ctor(tyname.clone(), vec![], fl), "DEFINED".into()));
+                }
+            }
+        }
+        for (label, input, want) in inputs {
+            n += 1;
+            ctx.oblige(rule, &format!("{}<-{}", target, label), true);
+            let mut env = Env::new();
+            env.insert(pname.clone(), input);
+            match ev.eval_fn_body(&f.block, &mut env) {
+                Ok(Val::Ctor(_, _, fl)) => {
+                    let got = match fl.get("name") { Some(Val::Str(s)) => s.clone(), Some(o) => o.show(), None => "<no name field>".into() };
+                    if got != want {
+                        ctx.violate(rule, &format!("not-the-defined-name:{}", target), &f.file, f.line,
+                            &format!("`impl From<{}> for {}` names the definition `{}`; the reference the assignment defines is `{}`: the definition is stored under another identifier of the production — in the name-keyed definitions table it replaces (or is replaced by) the definition of that name, and the assignment itself appears neither in the output nor in a warning", label, target, got, want));
+                    }
+                }
+                Ok(o) => ctx.fail_closed(rule, &format!("[{} <- {}]: result {}", target, label, o.show().chars().take(80).collect::<String>())),
+                Err(e) => ctx.fail_closed(rule, &format!("[{} <- {}]: {}", target, label, e)),
+            }
+        }
+    }
+    ctx.floor("C10.name/conversions", n, 8);
 }
 
 fn discard(m: &Model, ctx: &mut Ctx) {
